@@ -2,7 +2,7 @@
 Monitor O03: an independent validator over the implementation's output for generated
 programs (with and without base documents)."""
 import json
-from . import core, progs, docval
+from . import core, progs, docval, evaltie
 from .c14 import rand_base
 
 
@@ -139,6 +139,8 @@ def check(ctx):
     progs.feature_stats(ctx, ps)
     if not ctx.replay:
         uri_tie(ctx)
+        # C03_spec_refs_closed is a theorem about Model/Eval.v: the evaluator tie
+        evaltie.run(ctx, ps[: (800 if ctx.thorough else 160)] + evaltie.repo_corpus())
     res = progs.compile_many(ps)
     seen = set()
     for p, r in zip(ps, res):
